@@ -216,6 +216,117 @@ def gen(seed=0):
                        "    struct T {\n        x: logic<3>,\n        y: logic<2>,\n        z: logic<3>,\n    }\n    var t: T;\n"
                        "    always_comb {\n        t   = '0;\n        t.x = a;\n        t.y = b;\n        if s {\n            t.z = a + 3'd1;\n"
                        "        }\n        o = {t.x, t.y, t.z};\n        p = t.z ^ t.x;\n    }"))
+
+    # 7. restructuring shapes: long conditional-increment scans, nested enables, priority scans, long operator chains
+    for n in (8, 10, 13):
+        cw = clog2(n + 1) + 1
+        ports = [("a", "input ", lg(n)), ("en", "input ", "logic"), ("init", "input ", lg(cw)), ("cnt", "output", lg(cw))]
+        inc = lambda i: f"            cnt = cnt + {cw}'d1;"
+        body = "    always_comb {\n        cnt = init;\n" + "".join(
+            f"        if a[{i}] {{\n{inc(i)}\n        }}\n" for i in range(n)) + "    }"
+        add(f"Scan_pop_{n}", mod(f"Scan_pop_{n}", ports, body))
+        body = "    always_comb {\n        cnt = init;\n" + "".join(
+            f"        if en {{\n            if a[{i}] {{\n    {inc(i)}\n            }}\n        }}\n" for i in range(n)) + "    }"
+        add(f"Scan_pop_en_{n}", mod(f"Scan_pop_en_{n}", ports, body))
+        body = "    always_comb {\n        cnt = init;\n" + "".join(
+            f"        if !en {{\n        }} else if a[{i}] {{\n{inc(i)}\n        }}\n" for i in range(n)) + "    }"
+        add(f"Scan_pop_elif_{n}", mod(f"Scan_pop_elif_{n}", ports, body))
+        body = "    always_comb {\n        cnt = init;\n" + "".join(
+            f"        if a[{i}] {{\n        }} else {{\n{inc(i)}\n        }}\n" for i in range(n)) + "    }"
+        add(f"Scan_zero_{n}", mod(f"Scan_zero_{n}", ports, body))
+        iw = clog2(n)
+        body = ("    var found: logic;\n    always_comb {\n        found = 0;\n        idx = 0;\n" + "".join(
+            f"        if !found && a[{i}] {{\n            idx = {iw}'d{i};\n            found = 1;\n        }}\n" for i in range(n)) +
+            "        hit = found;\n    }")
+        add(f"Scan_ctz_{n}", mod(f"Scan_ctz_{n}", [("a", "input ", lg(n)), ("idx", "output", lg(iw)), ("hit", "output", "logic")], body))
+        body = "    always_comb {\n        idx = 0;\n" + "".join(
+            f"        if a[{i}] {{\n            idx = {iw}'d{i};\n        }}\n" for i in range(n)) + "    }"
+        add(f"Scan_last_{n}", mod(f"Scan_last_{n}", [("a", "input ", lg(n)), ("idx", "output", lg(iw))], body))
+    for op, nm in (("+", "add"), ("^", "xor"), ("&", "and"), ("|", "or")):
+        for n in (5, 9):
+            cw = 6 if n == 5 else 4
+            ports = [(f"x{i}", "input ", lg(cw)) for i in range(n)] + [("y", "output", lg(cw))]
+            add(f"Chain_{nm}_{n}", mod(f"Chain_{nm}_{n}", ports, "    assign y = " + f" {op} ".join(f"x{i}" for i in range(n)) + ";"))
+    ports = [(f"x{i}", "input ", lg(5)) for i in range(6)] + [("y", "output", lg(5))]
+    add("Chain_mixed", mod("Chain_mixed", ports, "    assign y = x0 + x1 - x2 + (x3 & x4) - x5;"))
+
+    # 8. hierarchy: per-instance parameters, tied-off child inputs, state in children, two levels
+    def hier(name, children, ports, body):
+        add(name, children + mod(name, ports, body))
+    addk = ("module {N} #(\n    param K: u32 = 1,\n) (\n    a: input  logic<8>,\n    y: output logic<8>,\n) {{\n"
+            "    assign y = a + K;\n}}\n")
+    hier("H_param", addk.format(N="H_param_AddK"),
+         [("a", "input ", lg(8)), ("y3", "output", lg(8)), ("y5", "output", lg(8)), ("y1", "output", lg(8))],
+         "    inst u3: H_param_AddK #( K: 3 ) ( a, y: y3 );\n    inst u5: H_param_AddK #( K: 5 ) ( a, y: y5 );\n"
+         "    inst u1: H_param_AddK ( a, y: y1 );")
+    ctl = ("module H_tie_Ctl (\n    stall: input  logic,\n    flush: input  logic,\n    busy : input  logic,\n    req  : input  logic,\n"
+           "    gnt  : input  logic,\n    lock : input  logic,\n    ready: output logic,\n    idle : output logic,\n    any  : output logic,\n"
+           "    all  : output logic,\n) {\n    assign ready = ~(stall | flush | busy);\n    assign idle  = ~(req & gnt & lock);\n"
+           "    assign any   = stall | flush | busy;\n    assign all   = req & gnt & lock;\n}\n")
+    hier("H_tie", ctl, [("stall", "input ", "logic"), ("req", "input ", "logic"), ("ready", "output", "logic"),
+                         ("idle", "output", "logic"), ("any", "output", "logic"), ("all", "output", "logic")],
+         "    inst c: H_tie_Ctl ( stall, flush: 1'b0, busy: 1'b0, req, gnt: 1'b1, lock: 1'b1, ready, idle, any, all );")
+    hier("H_tie2", ctl.replace("H_tie_Ctl", "H_tie2_Ctl"),
+         [("stall", "input ", "logic"), ("req", "input ", "logic"), ("ready", "output", "logic"),
+          ("idle", "output", "logic"), ("any", "output", "logic"), ("all", "output", "logic")],
+         "    inst c: H_tie2_Ctl ( stall, flush: 1'b1, busy: 1'b0, req, gnt: 1'b0, lock: 1'b1, ready, idle, any, all );")
+    acc = ("module H_state_Acc (\n    clk: input  clock,\n    rst: input  reset,\n    en : input  logic,\n    d  : input  logic<4>,\n"
+           "    q  : output logic<4>,\n) {\n    var r: logic<4>;\n    always_ff {\n        if_reset {\n            r = 2;\n"
+           "        } else if en {\n            r = r + d;\n        }\n    }\n    assign q = r;\n}\n")
+    hier("H_state", acc, [("clk", "input ", "clock"), ("rst", "input ", "reset"), ("e", "input ", lg(2)), ("d", "input ", lg(4)),
+                           ("s", "output", lg(5))],
+         "    var q0: logic<4>;\n    var q1: logic<4>;\n    inst a0: H_state_Acc ( clk, rst, en: e[0], d, q: q0 );\n"
+         "    inst a1: H_state_Acc ( clk, rst, en: e[1] & ~e[0], d: d ^ q0, q: q1 );\n    assign s = {1'b0, q0} + {1'b0, q1};")
+    leaf = ("module H_two_Leaf #(\n    param W: u32 = 4,\n    param INV: bit = 0,\n) (\n    a: input  logic<W>,\n    b: input  logic<W>,\n"
+            "    y: output logic<W>,\n) {\n    assign y = if INV ? ~(a & b) : (a & b);\n}\n"
+            "module H_two_Mid (\n    a: input  logic<4>,\n    b: input  logic<4>,\n    p: output logic<4>,\n    q: output logic<4>,\n) {\n"
+            "    inst l0: H_two_Leaf #( W: 4, INV: 0 ) ( a, b, y: p );\n    inst l1: H_two_Leaf #( W: 4, INV: 1 ) ( a: a ^ 4'h3, b, y: q );\n}\n")
+    hier("H_two", leaf, [("a", "input ", lg(4)), ("b", "input ", lg(4)), ("c", "input ", lg(4)), ("o", "output", lg(4)),
+                          ("r", "output", lg(4))],
+         "    var p0: logic<4>;\n    var q0: logic<4>;\n    var p1: logic<4>;\n    var q1: logic<4>;\n"
+         "    inst m0: H_two_Mid ( a, b, p: p0, q: q0 );\n    inst m1: H_two_Mid ( a: c, b: p0, p: p1, q: q1 );\n"
+         "    assign o = p1 | q0;\n    assign r = q1 ^ p0;")
+    # a child full of complex-gate shapes, each on its own inputs; parents tie random subsets of the inputs to constants
+    shapes = [("nor3", 3, "~({0} | {1} | {2})"), ("nand3", 3, "~({0} & {1} & {2})"), ("and3", 3, "{0} & {1} & {2}"),
+              ("or3", 3, "{0} | {1} | {2}"), ("aoi21", 3, "~(({0} & {1}) | {2})"), ("oai21", 3, "~(({0} | {1}) & {2})"),
+              ("ao21", 3, "({0} & {1}) | {2}"), ("oa21", 3, "({0} | {1}) & {2}"), ("aoi22", 4, "~(({0} & {1}) | ({2} & {3}))"),
+              ("oai22", 4, "~(({0} | {1}) & ({2} | {3}))"), ("ao22", 4, "({0} & {1}) | ({2} & {3})"),
+              ("aoi31", 4, "~(({0} & {1} & {2}) | {3})"), ("ao31", 4, "({0} & {1} & {2}) | {3}"),
+              ("mux", 3, "if {0} ? {1} : {2}"), ("xnor", 2, "~({0} ^ {1})"), ("nand2", 2, "~({0} & {1})"), ("nor2", 2, "~({0} | {1})")]
+    cports, cbody, k = [], [], 0
+    for nm, ar, ex in shapes:
+        ins = [f"pin{k + j}" for j in range(ar)]
+        k += ar
+        cports += [(i, "input ", "logic") for i in ins]
+        cbody.append(f"    assign o_{nm} = " + ex.format(*ins) + ";")
+    cports += [(f"o_{nm}", "output", "logic") for nm, _, _ in shapes]
+    nin = k
+    for v in range(8):
+        cname = f"H_ties{v}_G"
+        child = mod(cname, cports, "\n".join(cbody))
+        nfree = 6
+        conns = []
+        for j in range(nin):
+            r = rnd.random()
+            if v == 0:
+                # variant 0: per gate, all inputs but the first tied to the gate's unit/absorbing mix deterministically
+                r = 0.0 if j % 2 == 0 else 0.35
+            if r < 0.3:
+                conns.append(f"pin{j}: x[{rnd.randrange(nfree)}]")
+            elif r < 0.65:
+                conns.append(f"pin{j}: 1'b0")
+            else:
+                conns.append(f"pin{j}: 1'b1")
+        conns += [f"o_{nm}: y[{i}]" for i, (nm, _, _) in enumerate(shapes)]
+        hier(f"H_ties{v}", child, [("x", "input ", lg(nfree)), ("y", "output", lg(len(shapes)))],
+             f"    inst g: {cname} (\n        " + ",\n        ".join(conns) + ",\n    );")
+    hier("H_tie3", ctl.replace("H_tie_Ctl", "H_tie3_Ctl").replace("    any  : output logic,\n", "").replace("    all  : output logic,\n", "")
+         .replace("    assign any   = stall | flush | busy;\n", "").replace("    assign all   = req & gnt & lock;\n", ""),
+         [("stall", "input ", "logic"), ("req", "input ", "logic"), ("ready", "output", "logic"), ("idle", "output", "logic")],
+         "    inst c: H_tie3_Ctl ( stall, flush: 1'b0, busy: 1'b0, req, gnt: 1'b1, lock: 1'b1, ready, idle );")
+    hier("H_concat", addk.format(N="H_concat_AddK"),
+         [("a", "input ", lg(8)), ("hi", "output", lg(3)), ("lo", "output", lg(5))],
+         "    inst u: H_concat_AddK #( K: 77 ) ( a, y: {hi, lo} );")
     return out
 
 
@@ -419,6 +530,26 @@ def gen_opt(seed=0):
                       f"    always_comb {{\n        let p: logic<{W}> = a - b;\n        let q: logic<{W}> = p ^ (a << 1);\n"
                       "        y = q;\n        z = p;\n        if s[0] {\n            y = q + 1;\n        }\n"
                       "        if s[1] {\n            z = q & p;\n        }\n    }"))
+    for W in (33, 40, 64, 100):
+        # a selector wider than the 32-bit jump-table index: values that only differ above bit 31 must not alias
+        name = f"O_widesel_{W}"
+        arms = "\n".join(f"            {W}'d{k}: o = 8'd{10 * (k + 1)};" for k in range(4))
+        add(name, mod(name, [("sel", "input ", lg(W)), ("o", "output", lg(8))],
+                      "    always_comb {\n        case sel {\n" + arms + "\n            default: o = 8'd99;\n        }\n    }"))
+    for (mw, imp) in [(4, True), (4, False), (6, True)]:
+        # masked-equality chains over one selector (LUT mode); `imp`: one arm compares against a constant with a bit
+        # outside its mask, which can never match
+        name = f"O_lutmask_{mw}_{int(imp)}"
+        lo, hi, full = (1 << (mw // 2)) - 1, ((1 << mw) - 1) & ~((1 << (mw // 2)) - 1), (1 << mw) - 1
+        conds = [(lo, (lo + 4) & full if imp else lo, 1), (lo, 0, 2), (lo, 1, 3), (lo, 2, 1)]
+        conds += [(hi, (k << (mw // 2)) & hi, 1 + k % 3) for k in range(1, 1 << (mw - mw // 2))]
+        conds += [(full, 3, 2)]
+        body = ["    always_comb {", "        o = 0;"]
+        for i, (m, k, v) in enumerate(conds):
+            kw = "if" if i == 0 else "} else if"
+            body.append(f"        {kw} (s & {mw}'h{m:x}) == {mw}'h{k:x} {{\n            o = {v};")
+        body += ["        }", "    }"]
+        add(name, mod(name, [("s", "input ", lg(mw)), ("o", "output", lg(2))], "\n".join(body)))
     name = "O_dup"
     add(name, mod(name, [("a", "input ", lg(6)), ("b", "input ", lg(6)), ("p", "output", lg(6)), ("q", "output", lg(6)),
                          ("r", "output", lg(6))],
@@ -428,4 +559,222 @@ def gen_opt(seed=0):
     add(name, mod(name, [("a", "input ", lg(16)), ("y", "output", lg(16)), ("z", "output", lg(4))],
                   "    always_comb {\n        y        = 0;\n        y[3:0]   = a[15:12];\n        y[7:4]   = a[3:0] + 4'd1;\n"
                   "        y[15:8]  = {a[7:4], a[11:8]};\n        z        = y[7:4] ^ y[3:0];\n    }"))
+    return out
+
+
+# ---------------------------------------------------------------------------------------------
+# random comb-only programs (shared by C03 / C18 / C19 / C21): lets with shared right-hand sides at different
+# widths, variables rewritten inside a block, guarded overrides, slices of one selector compared with constants,
+# dynamic index / bit select through lets, partial assignments
+# ---------------------------------------------------------------------------------------------
+class _RandMod:
+    WIDTHS = [1, 1, 2, 3, 4, 4, 5, 7, 8, 8, 9, 12, 16, 24, 32, 33, 40, 64]
+
+    def __init__(self, rnd, name):
+        self.r = rnd
+        self.name = name
+        self.vals = []       # (expr text, width) readable anywhere (inputs, lets)
+        self.pool = []       # previously generated expression texts (for sharing)
+        self.lines = []
+        self.ports = []
+        self.nosel = set()   # signed variables: never bit-/part-selected here (see known finding C18 signed-select)
+
+    def w(self, small=False):
+        return self.r.choice(self.WIDTHS[:12] if small else self.WIDTHS)
+
+    def const(self, w):
+        v = self.r.choice([0, 1, (1 << w) - 1, self.r.randrange(1 << w), self.r.randrange(1 << min(w, 4))]) & ((1 << w) - 1)
+        return f"{w}'h{v:x}"
+
+    def atom(self, vals):
+        t, w = self.r.choice(vals)
+        k = self.r.random()
+        if t in self.nosel:
+            k = max(k, 0.3)
+        if w > 1 and k < 0.15:
+            i = self.r.randrange(w)
+            return f"{t}[{i}]"
+        if w > 2 and k < 0.3:
+            lo = self.r.randrange(w - 1)
+            hi = self.r.randrange(lo, w)
+            return f"{t}[{hi}:{lo}]"
+        if k < 0.38:
+            return self.const(self.w(small=True))
+        return t
+
+    def expr(self, vals, depth=0):
+        r = self.r
+        if depth >= 3 or r.random() < 0.25:
+            return self.atom(vals)
+        if self.pool and r.random() < 0.18:
+            return r.choice(self.pool)
+        k = r.random()
+        a = self.expr(vals, depth + 1)
+        if k < 0.42:
+            op = r.choice(["+", "-", "&", "|", "^", "+", "^", "&"])
+            e = f"({a} {op} {self.expr(vals, depth + 1)})"
+        elif k < 0.5:
+            e = f"(~{a})"
+        elif k < 0.56:
+            e = f"({r.choice(['&', '|', '^'])}{self.atom(vals)})"
+        elif k < 0.64:
+            e = f"({a} {r.choice(['<<', '>>'])} {r.choice(['1', '2', '3', '5', self.atom(vals)])})"
+        elif k < 0.76:
+            e = f"({a} {r.choice(['==', '!=', '<:', '>=', '>:', '<='])} {self.expr(vals, depth + 1)})"
+        elif k < 0.88:
+            e = f"(if {self.cond(vals, depth + 1)} ? {a} : {self.expr(vals, depth + 1)})"
+        elif k < 0.95:
+            e = "{" + a + ", " + self.expr(vals, depth + 1) + "}"
+        else:
+            e = f"(-{a})"
+        if depth <= 1 and len(e) < 120:
+            self.pool.append(e)
+        return e
+
+    def cond(self, vals, depth=0):
+        r = self.r
+        k = r.random()
+        if k < 0.35:
+            t, w = r.choice(vals)
+            if w > 1 and t not in self.nosel:
+                lo = r.randrange(w)
+                hi = min(w - 1, lo + r.randrange(3))
+                return f"{t}[{hi}:{lo}] == {self.const(hi - lo + 1)}"
+            return t
+        if k < 0.55:
+            return f"({self.cond(vals, depth + 1)} {r.choice(['&&', '||'])} {self.cond(vals, depth + 1)})" if depth < 2 else self.atom(vals)
+        if k < 0.65:
+            return f"!({self.atom(vals)} == {self.const(3)})"
+        return self.expr(vals, depth + 1)
+
+    def stmts(self, owned, vals, depth, n, ind):
+        r = self.r
+        out = []
+        pad = "    " * ind
+        for _ in range(n):
+            k = r.random()
+            rd = vals + [(v, w) for v, w in owned if r.random() < 0.6]
+            if k < 0.5 or depth >= 2:
+                v, w = r.choice(owned)
+                if w > 2 and r.random() < 0.25:
+                    lo = r.randrange(w - 1)
+                    hi = r.randrange(lo, w)
+                    out.append(f"{pad}{v}[{hi}:{lo}] = {self.expr(rd)};")
+                else:
+                    out.append(f"{pad}{v} = {self.expr(rd)};")
+            elif k < 0.75:
+                out.append(f"{pad}if {self.cond(rd)} {{")
+                out += self.stmts(owned, vals, depth + 1, r.randrange(1, 3), ind + 1)
+                if r.random() < 0.5:
+                    out.append(f"{pad}}} else {{")
+                    out += self.stmts(owned, vals, depth + 1, r.randrange(1, 3), ind + 1)
+                out.append(f"{pad}}}")
+            elif k < 0.9:
+                # chain over slices of one selector
+                t, w = r.choice([x for x in vals if x[1] >= 4] or vals)
+                arms = r.randrange(3, 9)
+                for i in range(arms):
+                    if w >= 4 and r.random() < 0.8 and t not in self.nosel:
+                        lo = r.choice([0, 0, 0, 2, 1]) if i else 0
+                        hi = min(w - 1, lo + r.choice([1, 1, 2, 3]))
+                        c = f"{t}[{hi}:{lo}] == {hi - lo + 1}'d{r.randrange(1 << (hi - lo + 1))}"
+                    else:
+                        c = f"{t} == {self.const(w)}"
+                    out.append(f"{pad}{'if' if i == 0 else '} else if'} {c} {{")
+                    out += self.stmts(owned, vals, depth + 2, 1, ind + 1)
+                if r.random() < 0.6:
+                    out.append(f"{pad}}} else {{")
+                    out += self.stmts(owned, vals, depth + 2, 1, ind + 1)
+                out.append(f"{pad}}}")
+            else:
+                t, w = r.choice([x for x in vals if 2 <= x[1] <= 8] or vals)
+                out.append(f"{pad}case {t} {{")
+                seen = set()
+                for i in range(r.randrange(2, 6)):
+                    cv = r.randrange(1 << min(w, 8))
+                    if cv in seen:
+                        continue
+                    seen.add(cv)
+                    v, vw = r.choice(owned)
+                    out.append(f"{pad}    {w}'d{cv}: {v} = {self.expr(rd)};")
+                v, vw = r.choice(owned)
+                out.append(f"{pad}    default: {v} = {self.expr(rd)};")
+                out.append(f"{pad}}}")
+        return out
+
+    def build(self):
+        r = self.r
+        nin = r.randrange(3, 6)
+        for i in range(nin):
+            w = self.w()
+            sg = r.random() < 0.15 and w > 1
+            self.ports.append((f"i{'abcdefg'[i]}", "input ", lg(w, sg)))
+            self.vals.append((f"i{'abcdefg'[i]}", w))
+            if sg:
+                self.nosel.add(f"i{'abcdefg'[i]}")
+        has_arr = r.random() < 0.45
+        if has_arr:
+            ew, n = r.choice([3, 4, 8, 9]), r.choice([2, 4, 4, 8])
+            self.ports.append(("arr", "input ", f"logic<{ew}> [{n}]"))
+            self.ports.append(("ix", "input ", lg(clog2(n))))
+            self.ports.append(("jx", "input ", lg(clog2(ew))))
+            self.vals.append(("ix", clog2(n)))
+            self.vals.append(("jx", clog2(ew)))
+        body = []
+        # lets (module level), some sharing one right-hand side at different widths
+        for i in range(r.randrange(2, 7)):
+            w = self.w()
+            if self.pool and r.random() < 0.35:
+                e = r.choice(self.pool)
+            else:
+                e = self.expr(self.vals)
+            body.append(f"    let l{i}: logic<{w}> = {e};")
+            self.vals.append((f"l{i}", w))
+        if has_arr:
+            n = int(self.ports[-3][2].split("[")[1].rstrip("]"))
+            ew = int(self.ports[-3][2].split("<")[1].split(">")[0])
+            body.append(f"    let li: logic<{clog2(n)}> = ix ^ {self.atom(self.vals)};")
+            body.append(f"    let lj: logic<{clog2(ew)}> = jx + {self.atom(self.vals)};")
+            body.append(f"    let ae: logic<{ew}> = arr[li];")
+            self.vals.append(("ae", ew))
+            if ew & (ew - 1) == 0:
+                body.append("    let ab: logic = arr[ix][lj];")
+                self.vals.append(("ab", 1))
+        # blocks
+        outs = []
+        vid = 0
+        for bi in range(r.randrange(1, 3)):
+            owned = []
+            for _ in range(r.randrange(2, 5)):
+                w = self.w()
+                owned.append((f"v{vid}", w))
+                body.insert(0, f"    var v{vid}: logic<{w}>;")
+                vid += 1
+            blk = ["    always_comb {"]
+            for v, w in owned:
+                blk.append(f"        {v} = {self.expr(self.vals, 2)};")
+            blk += self.stmts(owned, list(self.vals), 0, r.randrange(2, 6), 2)
+            blk.append("    }")
+            body += blk
+            self.vals += owned
+            outs += owned
+        k = 0
+        for v, w in outs:
+            self.ports.append((f"o{k}", "output", lg(w)))
+            body.append(f"    assign o{k} = {v};")
+            k += 1
+        for i in range(r.randrange(1, 3)):
+            w = self.w()
+            self.ports.append((f"o{k}", "output", lg(w)))
+            body.append(f"    assign o{k} = {self.expr(self.vals)};")
+            k += 1
+        return mod(self.name, self.ports, "\n".join(body))
+
+
+def gen_random(seed=0, n=60):
+    rnd = random.Random(seed * 7919 + 99)
+    out = []
+    for i in range(n):
+        name = f"R{seed}_{i}"
+        out.append((f"rand::{name}", _RandMod(random.Random(rnd.randrange(1 << 60)), name).build()))
     return out
